@@ -404,6 +404,99 @@ impl Space for Zoned {
     }
 }
 
+/// The record builders set exactly the field they name: every subset of fields, built through the builder
+/// methods, equals the record written out field by field (all values pairwise distinct), and is_empty is
+/// true for the empty subset only.
+struct Builders;
+impl Space for Builders {
+    fn name(&self) -> String {
+        "c17.record_builders".into()
+    }
+    fn len(&self) -> u64 {
+        (1u64 << 6) + (1u64 << 7) + (1u64 << 4)
+    }
+    fn eval(&self, i: u64, out: &mut Out) {
+        out.nontrivial += 1;
+        let bit = |k: u64| (i >> k) & 1 == 1;
+        if i < 64 {
+            // PartialTime: 6 fields
+            let mut b = PartialTime::new();
+            let mut w = PartialTime::default();
+            if bit(0) { b = b.with_hour(Some(1)); w.hour = Some(1); }
+            if bit(1) { b = b.with_minute(Some(2)); w.minute = Some(2); }
+            if bit(2) { b = b.with_second(Some(3)); w.second = Some(3); }
+            if bit(3) { b = b.with_millisecond(Some(4)); w.millisecond = Some(4); }
+            if bit(4) { b = b.with_microsecond(Some(5)); w.microsecond = Some(5); }
+            if bit(5) { b = b.with_nanosecond(Some(6)); w.nanosecond = Some(6); }
+            out.law("PartialTime builders", b == w && b.is_empty() == (i == 0), || vec![("subset", format!("{i:06b}"))]);
+        } else if i < 64 + 128 {
+            let i = i - 64;
+            let bit = |k: u64| (i >> k) & 1 == 1;
+            let mut b = PartialDate::new();
+            let mut w = PartialDate::default();
+            let era = temporal_rs::TinyAsciiStr::<19>::try_from_utf8(b"ce").ok();
+            let code = MonthCode::from_str("M07").ok();
+            let cal = Calendar::from_str("gregory").unwrap();
+            if bit(0) { b = b.with_year(Some(11)); w.year = Some(11); }
+            if bit(1) { b = b.with_month(Some(7)); w.month = Some(7); }
+            if bit(2) { b = b.with_month_code(code); w.month_code = code; }
+            if bit(3) { b = b.with_day(Some(13)); w.day = Some(13); }
+            if bit(4) { b = b.with_era(era); w.era = era; }
+            if bit(5) { b = b.with_era_year(Some(17)); w.era_year = Some(17); }
+            if bit(6) { b = b.with_calendar(cal.clone()); w.calendar = cal.clone(); }
+            out.law("PartialDate builders", b == w, || vec![("subset", format!("{i:07b}"))]);
+        } else {
+            let i = i - 64 - 128;
+            let bit = |k: u64| (i >> k) & 1 == 1;
+            let d = PartialDate::new().with_day(Some(9));
+            let t = PartialTime::new().with_second(Some(8));
+            let mut bz = PartialZonedDateTime::new();
+            let mut wz = PartialZonedDateTime::default();
+            let mut bd = PartialDateTime::new();
+            let mut wd = PartialDateTime::default();
+            let off = temporal_rs::UtcOffset::from_str("+05:30").ok();
+            let tz = TimeZone::try_from_str("-03:00").ok();
+            if bit(0) { bz = bz.with_date(d.clone()); wz.date = d.clone(); bd = bd.with_partial_date(d.clone()); wd.date = d.clone(); }
+            if bit(1) { bz = bz.with_time(t); wz.time = t; bd = bd.with_partial_time(t); wd.time = t; }
+            if bit(2) { bz = bz.with_offset(off); wz.offset = off; }
+            if bit(3) { bz = bz.with_timezone(tz.clone()); wz.timezone = tz.clone(); }
+            out.law("PartialZonedDateTime builders", bz == wz && bz.is_empty() == (i == 0), || vec![("subset", format!("{i:04b}"))]);
+            out.law("PartialDateTime builders", bd.date == wd.date && bd.time == wd.time && bd.is_empty() == (i & 3 == 0), || vec![("subset", format!("{i:04b}"))]);
+        }
+    }
+}
+
+/// PlainDateTime::with_time / PlainDate::to_plain_date_time replace (or supply) the whole time and keep the
+/// date; the result is range-checked (midnight of the first representable day is outside the limits).
+struct WithTime {
+    recv: Vec<Ymd>,
+}
+const WT_TIMES: [(u8, u8, u8, u16, u16, u16); 7] = [(0, 0, 0, 0, 0, 0), (0, 0, 0, 0, 0, 1), (1, 2, 3, 4, 5, 6), (12, 0, 0, 0, 0, 0), (23, 59, 59, 999, 999, 999), (23, 0, 0, 0, 0, 0), (0, 59, 0, 999, 0, 0)];
+impl Space for WithTime {
+    fn name(&self) -> String {
+        "c17.with_time".into()
+    }
+    fn len(&self) -> u64 {
+        (self.recv.len() * WT_TIMES.len() * WT_TIMES.len()) as u64
+    }
+    fn eval(&self, i: u64, out: &mut Out) {
+        let ix = unrank(i, &[WT_TIMES.len() as u64, WT_TIMES.len() as u64, self.recv.len() as u64]);
+        let (r, old, new) = (self.recv[ix[2]], WT_TIMES[ix[1]], WT_TIMES[ix[0]]);
+        out.nontrivial += 1;
+        let attrs = || vec![("receiver", format!("{r:?}")), ("old_time", format!("{old:?}")), ("new_time", format!("{new:?}"))];
+        let first_midnight = |t: (u8, u8, u8, u16, u16, u16)| r == Ymd::new(-271_821, 4, 19) && t == (0, 0, 0, 0, 0, 0);
+        let Oc::Ok(time) = call(|| PlainTime::try_new(new.0, new.1, new.2, new.3, new.4, new.5)) else { return };
+        let model = if first_midnight(new) { Err(ErrorKind::Range) } else { Ok((r.y, r.m, r.d, new)) };
+        let same = |a: &(i64, u8, u8, (u8, u8, u8, u16, u16, u16)), b: &PlainDateTime| (b.iso_year() as i64, b.iso_month(), b.iso_day(), (b.hour(), b.minute(), b.second(), b.millisecond(), b.microsecond(), b.nanosecond())) == *a;
+        if !first_midnight(old) {
+            let got = call(|| PlainDateTime::try_new(r.y as i32, r.m, r.d, old.0, old.1, old.2, old.3, old.4, old.5, Calendar::default())?.with_time(time));
+            out.lockstep("PlainDateTime::with_time", &model, &got, same, attrs);
+        }
+        let got = call(|| pd(r.y, r.m, r.d)?.to_plain_date_time(Some(time)));
+        out.lockstep("PlainDate::to_plain_date_time(time)", &model, &got, same, attrs);
+    }
+}
+
 /// with() on receivers of every calendar: the supplied field is the field of the result, the others
 /// come from the receiver (laws, no calendar model): years incl. zero and negative ones, months, days.
 struct CalendarWith;
@@ -477,6 +570,8 @@ pub fn spaces(env: &Env) -> Vec<Box<dyn Space>> {
         Box::new(DateTimePartial { recv: receivers() }),
         Box::new(Zoned),
         Box::new(CalendarWith),
+        Box::new(WithTime { recv: receivers() }),
+        Box::new(Builders),
     ]
 }
 
